@@ -101,9 +101,14 @@ def gen_cases(rng, n):
         # device behaviour variations
         r = rng.random()
         if kind in (0, 1):
-            if r < 0.12:
+            if r < 0.08:
                 stage = rng.choice(["tx", "receipt", "proof"])
                 d.early[stage] = rng.randint(1, 40)
+                meta["device_success"] = False
+            elif r < 0.16:
+                # the device stops asking a few bytes short of the end of a part, after many small chunks
+                d.early[rng.choice(["tx", "receipt"])] = -rng.randint(1, 3)
+                d.policy = devices.Policy(chunk=rng.choice([3, 5, 8, 13, 21]))
                 meta["device_success"] = False
             elif r < 0.2:
                 d.final_op = rng.choice([0x08, 0x02, 0x04, 0x55])
